@@ -98,3 +98,13 @@ package wire
 //@ func GetString
 //@   props C18
 //@   ensures  [consumes-within-buffer] err == nil ==> 1 <= n && n <= len(buf)
+
+// omitempty in the JSON encoder (C18: sign-bytes must bind every field): a non-comparable struct is empty exactly if EVERY
+// field is empty. The reflect calls are opaque; what is decided is the shape of the loop over the fields.
+//@ ghost gFieldEmpty IntBoolArr
+//@ func isEmpty
+//@   props C18
+//@   nosafety
+//@   atcall isEmpty set gFieldEmpty = store(gFieldEmpty, calls(isEmpty) - 1, result)
+//@   ensures [struct-is-empty-iff-every-field-is-empty] calls(isEmpty) > 0 ==> result == forall(j, 0, calls(isEmpty), gFieldEmpty[j])
+//@   loop 0 invariant forall(j, 0, calls(isEmpty), gFieldEmpty[j])
